@@ -205,6 +205,13 @@ class Run:
         if os.path.exists(extra):
             self.known += [k for k in json.load(open(extra))["findings"] if k["property"] == pid]
         self.casedir = os.path.join(COQ, "Cases", "%s-%d" % (pid, os.getpid()))
+        try:   # remove case directories left behind by runs of this property whose process is gone
+            for d in os.listdir(os.path.join(COQ, "Cases")):
+                m = re.match(r"%s-(\d+)$" % pid, d)
+                if m and not os.path.exists("/proc/" + m.group(1)):
+                    shutil.rmtree(os.path.join(COQ, "Cases", d), ignore_errors=True)
+        except OSError:
+            pass
         os.makedirs(os.path.join(VERIF, "evidence"), exist_ok=True)
 
     # ---------------- logging ----------------
@@ -458,6 +465,14 @@ class Run:
         tmp = path + ".tmp%d" % os.getpid()
         json.dump(ev, open(tmp, "w"), indent=1, default=str)
         os.replace(tmp, path)
+        # the evidence must validate against the published schema (python3-vt has jsonschema; /venv does not)
+        rc, out = sh("python3-vt -c \"import json,jsonschema;jsonschema.validate(json.load(open('%s')),"
+                     "json.load(open('/root/.vp/EVIDENCE.schema.json')))\"" % path, timeout=60)
+        if rc != 0 and "ValidationError" in out:
+            self.log("EVIDENCE DOES NOT VALIDATE:\n" + out[-1200:])
+            print("[%s] evidence file invalid" % self.pid, flush=True)
+            shutil.rmtree(self.casedir, ignore_errors=True)
+            sys.exit(2)
         shutil.rmtree(self.casedir, ignore_errors=True)
         self.log("done: evaluations=%d distinct=%d disagreements=%d violations=%d known=%d wall=%.1fs" % (
             self.cov["evaluations"], len(self._distinct), self.cov["disagreements"], len(self.violations),
